@@ -37,6 +37,9 @@ func setup() {
 	})
 }
 
+// violatingScenarios counts scenarios with violations in this worker process.
+var violatingScenarios int
+
 // confirmedStalls: stall classes already confirmed by three attempts in this worker process.
 var confirmedStalls = map[string]bool{}
 
@@ -54,6 +57,12 @@ func run(c vrt.Case) vrt.Obs {
 		}
 	}
 	for _, sc := range scs {
+		if p.Kind == "prng" && violatingScenarios >= 3 {
+			// this worker has already refuted the property three times over: the remaining PRNG
+			// scenarios could only repeat that (on a tree without violations nothing is ever skipped)
+			o.Count("prng_scenarios_skipped_after_3_violating_ones", 1)
+			continue
+		}
 		t0 := time.Now()
 		c0 := o.Counters["attempts_stalled"]
 		evalScenario(&o, sc)
@@ -135,6 +144,7 @@ func evalScenario(o *vrt.Obs, sc scenario) {
 		o.Inconclusive = append(o.Inconclusive, fmt.Sprintf("%s: the library's broadcaster evicted a receiver (500 ms timeout) in 3 attempts", sc.Name))
 		return
 	case len(last.viol) > 0:
+		violatingScenarios++
 		for _, v := range last.viol {
 			if v.Detail == nil {
 				v.Detail = map[string]any{"scenario": sc, "sim_events_tail": last.eventsTail}
@@ -147,6 +157,7 @@ func evalScenario(o *vrt.Obs, sc scenario) {
 		case last.stalled == "accept-race" || last.stalled == "no-port":
 			o.Inconclusive = append(o.Inconclusive, fmt.Sprintf("%s: %s", sc.Name, last.stalled))
 		case stalls[key] >= 3:
+			violatingScenarios++
 			confirmedStalls[key] = true
 			v := o.Violate(key, "[%s %s] no progress at phase %q in three attempts (nothing moved for 10 s; 3 s with the serial line drained): rx %d of the bytes delivered, tx %d bytes accepted",
 				sc.Name, sc.Mode, last.stalled, last.rxBytes, last.txBytes)
